@@ -33,6 +33,25 @@ THOROUGH_VARIANTS = ["std", "verify", "i64v", "i128sv", "noasm", "w2", "w8"]
 VERIFY_VARIANTS = {"verify", "i64v", "i128sv"}
 
 
+def tolerant_harness(binary, records, timeout=1800, env=None):
+    """vlib.harness, except that a truncated last output line (the harness died in a VERIFY_CHECK abort while stdout was
+    block-buffered) is dropped instead of raising: the caller then sees rc != 0 and fewer events, i.e. a crash at that record"""
+    import subprocess
+    data = "".join(json.dumps({"e": r["e"], "in": r.get("in", {})}, separators=(",", ":")) + "\n" for r in records)
+    e = dict(os.environ)
+    if env: e.update(env)
+    try:
+        p = subprocess.run([binary], input=data, timeout=timeout, stdout=subprocess.PIPE, stderr=subprocess.PIPE, text=True, env=e)
+    except subprocess.TimeoutExpired:
+        raise Infra("harness timed out: " + binary)
+    outs = []
+    for l in p.stdout.splitlines():
+        if not l.startswith("{"): continue
+        try: outs.append(json.loads(l))
+        except ValueError: break
+    return outs, p.returncode, p.stderr
+
+
 def b32(x): return list(x.to_bytes(32, "big"))
 def le_int(d): return sum(v << (8 * i) for i, v in enumerate(d))
 
@@ -58,64 +77,37 @@ def strip_verify(recs):
 
 # ---------------------------------------------------------------------------------------------------
 # part 1: field machine -> transition tour
-def field_tours(chk, lines):
+def field_tours(chk, lines, seen_edges):
+    """one replay sequence per emitted state: the path TLC reached it by, a snapshot, then every operation enabled there
+    (the harness restores the snapshot after each mutator -- plain struct copies, not API calls)"""
     def regs_of(s): return [s[str(i)] for i in range(len(s))] if isinstance(s, dict) else list(s)
-    def skey(regs, f, root): return json.dumps([regs, f, root], separators=(",", ":"))
-    states = {}
-    for l in lines:
-        l["regs"] = regs_of(l["s"])
-        states[skey(l["regs"], l["f"], l["root"])] = l
-    roots = [k for k, l in states.items() if l["root"]]
-    if not roots: raise Infra("field machine emitted no root state")
-    parent = {k: None for k in roots}; order = list(roots); i = 0
-    while i < len(order):
-        k = order[i]; i += 1; l = states[k]
-        for e in l["mut"]:
-            op, w, reg = e[0], e[1], e[2]
-            nregs = list(l["regs"])
-            if w >= 0: nregs[w] = reg
-            dk = skey(nregs, l["f"] - 1, [])
-            if dk in states and dk not in parent:
-                parent[dk] = (k, e); order.append(dk)
     def step_exp(e):
         op, w, reg, ret, byts = e
-        if w >= 0:
-            val = b32(le_int(reg[0])) if reg[1] >= 0 else []
-            return val, ret, reg[1], reg[2]
+        if w >= 0: return (b32(le_int(reg[0])) if reg[1] >= 0 else []), ret, reg[1], reg[2]
         return list(byts), ret, 0, 0
-    recs = []; seen_edges = set(); nsteps = 0; nedges = 0
-    for k in order:
-        l = states[k]
-        # prefix from the root
-        pre = []; kk = k
-        while parent[kk] is not None:
-            pk, e = parent[kk]; pre.append(e); kk = pk
-        pre.reverse()
+    recs = []; nsteps = 0; nedges = 0
+    for l in lines:
         ops = []; val = []; ret = []; mag = []; nrm = []
         def push(op, x):
             ops.append(op); val.append(x[0]); ret.append(x[1]); mag.append(x[2]); nrm.append(x[3])
-        for e in pre: push(e[0], step_exp(e))
+        for e in l["path"]: push(e[0], step_exp(e))
         push(["snap", 0, 0, 0, 0], ([], 0, 0, 0))
-        rk = json.dumps(l["regs"], separators=(",", ":"))
-        fresh = 0
-        for e in l["mut"]:
-            ek = rk + json.dumps(e[0], separators=(",", ":"))
-            if ek in seen_edges: continue
-            seen_edges.add(ek); fresh += 1
-            push(e[0], step_exp(e)); push(["back", 0, 0, 0, 0], ([], 0, 0, 0))
-            chk.case_labels["KFeSeq/%s/%s" % (e[0][0], "m%d" % e[2][1])] += 1
-        for e in l["prd"]:
-            ek = rk + json.dumps(e[0], separators=(",", ":"))
-            if ek in seen_edges: continue
-            seen_edges.add(ek); fresh += 1
-            push(e[0], step_exp(e))
-            chk.case_labels["KFeSeq/%s/ret=%s" % (e[0][0], e[3])] += 1
+        rk = json.dumps(regs_of(l["s"]), separators=(",", ":")); fresh = 0
+        for kind in ("mut", "prd"):
+            for e in l[kind]:
+                ek = rk + json.dumps(e[0], separators=(",", ":"))
+                if ek in seen_edges: continue      # the same operation on the same register contents was already scheduled
+                seen_edges.add(ek); fresh += 1
+                push(e[0], step_exp(e))
+                if kind == "mut":
+                    push(["back", 0, 0, 0, 0], ([], 0, 0, 0))
+                    chk.case_labels["KFeSeq/%s/m%d" % (e[0][0], e[2][1])] += 1
+                else:
+                    chk.case_labels["KFeSeq/%s/ret=%s" % (e[0][0], e[3])] += 1
         if not fresh: continue
         nedges += fresh; nsteps += len(ops)
-        recs.append({"e": "KFeSeq", "in": {"init": states[kk]["root"], "ops": ops}, "out": {"val": val, "ret": ret, "mag": mag, "nrm": nrm, "icb": 0}})
-    unreachable = len(states) - len(order)
-    if unreachable: raise Infra("field machine: %d emitted states not reachable from the roots in the runner's graph" % unreachable)
-    return recs, len(states), nedges, nsteps
+        recs.append({"e": "KFeSeq", "in": {"init": l["root"], "ops": ops}, "out": {"val": val, "ret": ret, "mag": mag, "nrm": nrm, "icb": 0}})
+    return recs, len(lines), nedges, nsteps
 
 
 # part 5: SHA stream machine -> transition tour
@@ -366,22 +358,25 @@ def run(chk):
     quick = chk.tier == "quick"
     chk.groups = ["kernel"]
     chk.label_of = my_label
+    vlib.harness = tolerant_harness
     variants = QUICK_VARIANTS if quick else THOROUGH_VARIANTS
     rng = random.Random(chk.seed)
     vlib.setup_classes(); vlib.stage_specs(os.path.join(chk.out, "stage"))
     fpath, spath = chk.out + "/field.ndjson", chk.out + "/sha.ndjson"
-    fcfgs = ["C05_field.cfg"] if quick else ["C05_field_thorough.cfg", "C05_field_deep.cfg"]
+    fcfgs = ["C05_field.cfg", "C05_field_mag.cfg"] if quick else ["C05_field_thorough.cfg", "C05_field_sym.cfg", "C05_field_mag_thorough.cfg"]
     with cf.ThreadPoolExecutor(max_workers=6) as ex:
         jb = ex.submit(chk.build, variants)
-        jf = [ex.submit(chk.model, "C05_Field.tla", c, env={"GEN_OUT": "%s.%d" % (fpath, i)}, timeout=6000, workers=8, heap="8g") for i, c in enumerate(fcfgs)]
+        jf = [ex.submit(chk.model, "C05_Field.tla", c, env={"GEN_OUT": "%s.%d" % (fpath, i)}, timeout=6000, workers=6, heap="4g") for i, c in enumerate(fcfgs)]
         js = ex.submit(chk.model, "C05_Sha.tla", "C05_sha.cfg" if quick else "C05_sha_thorough.cfg", env={"GEN_OUT": spath}, timeout=3000, workers=4, heap="3g")
-        jg = ex.submit(chk.generate, MODULE, "C05_gen.cfg", "gen", timeout=6000, workers=8 if quick else 16, heap="8g")
+        jg = ex.submit(chk.generate, MODULE, "C05_gen.cfg", "gen", timeout=6000, workers=8 if quick else 12, heap="6g")
         jb.result(); [j.result() for j in jf]; js.result(); gen = jg.result()
     # ---- part 1: field transition tour ----
-    ftours = []; fstat = []
+    ftours = []; fstat = []; seen_edges = set()
     for i, c in enumerate(fcfgs):
         lines = vlib.read_ndjson("%s.%d" % (fpath, i))
-        recs, nst, ned, nsteps = field_tours(chk, lines)
+        if not lines: raise Infra("field machine %s emitted nothing" % c)
+        recs, nst, ned, nsteps = field_tours(chk, lines, seen_edges)
+        del lines
         log("[C05] field machine %s: %d states with outgoing transitions, %d labelled transitions -> %d replay sequences, %d steps" % (c, nst, ned, len(recs), nsteps))
         ftours += recs; fstat.append({"cfg": c, "states": nst, "transitions": ned, "steps": nsteps})
     # ---- part 5: SHA stream transition tour ----
@@ -428,7 +423,7 @@ def replay(chk, path):
     recs = vlib.read_ndjson(path)
     variant = recs[0].get("variant", "std") if recs and recs[0].get("e") == "Build" else "std"
     recs = [r for r in recs if r.get("e") != "Build"]
-    chk.groups = ["kernel"]; chk.label_of = my_label
+    chk.groups = ["kernel"]; chk.label_of = my_label; vlib.harness = tolerant_harness
     chk.build([variant])
     ev = chk.record(recs, variant)
     if ev: chk.validate(ev, MODULE, "C05_trace.cfg", "replay", variant)
